@@ -146,7 +146,13 @@ def make_iwc(spec):
     ac = _aquacrop()
     if spec is None:
         spec = {"value": ["FC"]}
-    return ac.InitialWaterContent(**copy.deepcopy(spec))
+    spec = copy.deepcopy(spec)
+    if spec.pop("_as_array", False):           # the values handed over as a float64 numpy array (as read from a file) instead of a list
+        import numpy as _np
+        spec["value"] = _np.array(spec["value"], dtype=float)
+        if all(isinstance(x, (int, float)) for x in spec.get("depth_layer", [])):
+            spec["depth_layer"] = _np.array(spec["depth_layer"], dtype=float) if spec.get("method") == "Depth" else spec["depth_layer"]
+    return ac.InitialWaterContent(**spec)
 
 
 def make_co2(spec):
